@@ -656,8 +656,7 @@ func c8Scenarios(r *vk.Run) []c8Scenario {
 	proofSets := []string{"V", "VV", "VU", "UV", "VE", "EV", "U", "E", "I", "VI", "VJ", "UU"}
 	offsets := []int{-9, -3, 0, 3, 6, 12}
 	if r.Quick() {
-		proofSets = []string{"V", "VV", "VU", "VE", "U", "I", "VJ"}
-		offsets = []int{-9, 0, 3, 12}
+		offsets = []int{-9, -3, 0, 3, 12}
 	}
 	// thresholds: 0 .. up to 13 constants; the world computes them, the count is bounded by 2*6+1
 	for _, ps := range proofSets {
@@ -760,7 +759,7 @@ func TestVerifC08(t *testing.T) {
 	unit := 0
 	for si, sc := range scs {
 		scheds := s1
-		if r.Thorough() && si%7 == 0 {
+		if r.Thorough() && si%3 == 0 {
 			scheds = s2
 		}
 		for _, sched := range scheds {
